@@ -671,6 +671,49 @@ def _split_and(t, out):
         out.append(t)
 
 
+def h26_class_level_cache(ctx, tk, rule, funcs):
+    """a dict / list created in the class body is one object shared by the class and all its subclasses.  A method that
+    memoises a value computed from `self.<attr>` in it, under a key that does not mention an attribute some subclass
+    overrides, hands one subclass's value to the other"""
+    for f in funcs:
+        if f.cls is None or not f.params:
+            continue
+        selfn = f.params[0]
+        shared = {}
+        for c in f.cls.mro():
+            for k_, v in c.attrs.items():
+                if isinstance(v, (ast.Dict, ast.List, ast.Set)) or (isinstance(v, ast.Call) and isinstance(v.func, ast.Name) and v.func.id in ("dict", "list", "set", "defaultdict")):
+                    shared.setdefault(k_, c)
+        if not shared:
+            continue
+        subs = [k for k in ctx.program.subclasses(f.cls) if k is not f.cls]
+        overridden = set()
+        for k in subs:
+            overridden |= set(k.attrs)
+        for x in ast.walk(f.node):
+            if not (isinstance(x, ast.Assign) and len(x.targets) == 1 and isinstance(x.targets[0], ast.Subscript)):
+                continue
+            tg = x.targets[0]
+            if not (isinstance(tg.value, ast.Attribute) and isinstance(tg.value.value, ast.Name) and tg.value.value.id == selfn and tg.value.attr in shared):
+                continue
+            key_names = {y.attr for y in ast.walk(tg.slice) if isinstance(y, ast.Attribute)} | {y.id for y in ast.walk(tg.slice) if isinstance(y, ast.Name)}
+            if "__class__" in key_names or "type" in key_names:
+                continue
+            reads = {y.attr for y in ast.walk(x.value) if isinstance(y, ast.Attribute) and isinstance(y.value, ast.Name) and y.value.id == selfn}
+            # one level through instance attributes assigned in this function from class attributes
+            for y in ast.walk(f.node):
+                if isinstance(y, ast.Assign) and any(isinstance(t, ast.Attribute) and isinstance(t.value, ast.Name) and t.value.id == selfn and t.attr in reads for t in y.targets):
+                    reads |= {z.attr for z in ast.walk(y.value) if isinstance(z, ast.Attribute) and isinstance(z.value, ast.Name) and z.value.id == selfn}
+            clash = sorted((reads & overridden) - key_names)
+            what = "a value memoised in class-level (shared) state is keyed by everything it depends on"
+            if clash:
+                ctx.violated(rule, f, what, "`%s` caches a value that depends on %s, which %s override(s), under a key that ignores the class: after one class has filled the "
+                             "cache the other reads its table" % (ast.unparse(x)[:100], ", ".join("self." + c_ for c_ in clash), ", ".join(k.name for k in subs if set(k.attrs) & set(clash))),
+                             node=x, engine="KB")
+            else:
+                ctx.holds(rule, f, what, node=x, engine="KB")
+
+
 def generic(ctx, tk, rule, funcs, skip=()):
     """all deviance-form hazard rules over a property's function scope"""
     fs = [f for f in funcs if f.qual not in skip]
@@ -697,6 +740,7 @@ def generic(ctx, tk, rule, funcs, skip=()):
     h23_uninitialised_result(ctx, tk, rule + "/H23", fs)
     h24_memory_layout_as_shape(ctx, tk, rule + "/H24", fs)
     h25_totals_equality_fast_path(ctx, tk, rule + "/H25", fs)
+    h26_class_level_cache(ctx, tk, rule + "/H26", fs)
     from . import wellformed as _W
     _W.report_constant_truth(ctx, tk, rule, fs)
     # H19 (raw ufunc identity stored) depends on which ufunc the caller chose: it is applied by C05 only, where the
